@@ -230,6 +230,9 @@ CasesPlace10(lazy) ==
   ELSE {CaseX(<<Place(p[1], pl)>>, NoEnv, "placed", <<Place(p[2], pl)>>) : p \in Pairs10, pl \in Places10}
        \cup {Case(<<Place(b, pl)>>, NoEnv, "bad") : b \in Bad10, pl \in Places10}
 
+RECURSIVE Deep10(_, _)
+Deep10(n, leaf) == IF n = 0 THEN leaf ELSE Single("k" \o NatStr(13 - n), Deep10(n - 1, leaf))     \* k2: {k3: ... {k12: leaf}}
+DeepPath == JoinStr([i \in 1..12 |-> "k" \o NatStr(i)], ".")
 Quoted10 == M("id" :> I("1") @@ "foo" :> Single("bar", S("baz")) @@ "404" :> Single("page", S("missing")) @@ "true" :> L(<<S("yes")>>) @@ "null" :> I("0")
                @@ "0" :> S("zero") @@ "" :> S("empty") @@ "a.b" :> S("dotted"))      \* key names that collide with path syntax
 CasesC10(lazy) ==
@@ -260,6 +263,12 @@ CasesC10(lazy) ==
                     <<Single("$replace", L(<<I("0")>>)), Null>>, <<Single("$replace", L(<<S("foo"), S("bar"), S("deeper")>>)), Null>> }}
   \cup {CaseX(<<Quoted10, Mk2("id", I("2"), "use", Single("$replace", Mk2("$match", Single("id", I("1")), "$path", S(q[1]))))>>, NoEnv, "quotedcross", q[2])
           : q \in { <<"\"404\"", Single("page", S("missing"))>>, <<"'foo.bar'", S("baz")>>, <<"404", Null>> }}
+  (* a path of twelve segments, as a string and as a list; the same target referenced three times in one document *)
+  \cup {CaseX(<<Mk2("k1", Deep10(11, Single("leaf", I("7"))), "use", q)>>, NoEnv, "deep", Single("leaf", I("7")))
+          : q \in { S("$replace:" \o DeepPath), Single("$merge", S(DeepPath)), Single("$replace", L([i \in 1..12 |-> S("k" \o NatStr(i))])) }}
+  \cup {CaseX(<<Mk2("k1", Deep10(11, Single("leaf", I("7"))), "use", S("$replace:" \o DeepPath \o ".nope"))>>, NoEnv, "deep", Null)}
+  \cup {CaseX(<<Mk4("a", Single("p", I("1")), "x", Single("$merge", S("a")), "y", Mk2("$merge", S("a"), "q", I("2")), "z", S("$merge:a"))>>, NoEnv, "thrice",
+               Mk4("a", Single("p", I("1")), "x", Single("p", I("1")), "y", Mk2("p", I("1"), "q", I("2")), "z", Single("p", I("1"))))}
   (* two documents match; one of them is a $merge host: still ambiguous *)
   \cup {Case(<<Mk2("id", I("1"), "h", Single("$replace", L(<<Single("parts", Single("v", I("2"))), S("parts")>>))),
                HostDoc, TmplDoc, Mk2("id", I("4"), "parts", Single("v", I("2")))>>, NoEnv, "crossbad") : dummy \in {1}}
@@ -269,6 +278,9 @@ LawC10(cs) ==
   CASE cs.tag = "quoted" ->
          LET r == Eval1(cs.docs[1]) IN
          IF IsNull(cs.aux) THEN ~r.ok ELSE r.ok /\ At(r.v[1], "use") = cs.aux /\ At(r.v[1], "404") = Single("page", S("missing"))
+    [] cs.tag = "deep" ->
+         LET r == Eval1(cs.docs[1]) IN IF IsNull(cs.aux) THEN ~r.ok ELSE r.ok /\ At(r.v[1], "use") = cs.aux
+    [] cs.tag = "thrice" -> Eval1(cs.docs[1]) = Ok(<<cs.aux>>)
     [] cs.tag = "quotedcross" ->
          LET r == EvalS(cs.docs, NoEnv) IN
          IF IsNull(cs.aux) THEN ~r.ok ELSE r.ok /\ At(r.v[2], "use") = cs.aux
@@ -356,6 +368,10 @@ CasesC11layer ==
                 <<"f", Mk2("$match", Single("$output", False), "$output", True), <<L(<<I("1"), I("2")>>)>> >>,
                 <<"t", Mk2("$match", Single("$output", True), "$output", False), <<Single("name", S("svc"))>> >>,
                 <<"f", I("3"), <<Single("name", S("svc"))>> >>, <<"t", I("3"), <<L(<<I("1"), I("2"), I("3")>>)>> >> }}
+  (* the same marker twice in one list (each layer brings its own): both are markers, neither is an entry *)
+  \cup {CaseX(<<MarkedList("t"), Single("l", L(<<Single("$output", True), I("3")>>))>>, NoEnv, "markerlayer", <<L(<<I("1"), I("2"), I("3")>>)>>),
+        CaseX(<<Single("l", L(<<Single("$output", True), I("1"), Single("$output", True)>>)), Single("z", I("1"))>>, NoEnv, "markerlayer", <<L(<<I("1")>>)>>),
+        CaseX(<<MarkedList("f"), Single("l", L(<<Single("$output", False), I("3")>>))>>, NoEnv, "markerlayer", <<Single("name", S("svc"))>>)}
 
 CasesC11(lazy) ==
   CasesC11b(0) \cup {Case(<<Wide11>>, NoEnv, "wide")} \cup CasesC11dyn \cup CasesC11layer \cup
@@ -500,6 +516,10 @@ Tmpl1(l1, r, l2) == "$\"" \o l1 \o "{" \o r \o "}" \o l2 \o "\""
 Tmpl2(l1, r1, l2, r2, l3) == "$\"" \o l1 \o "{" \o r1 \o "}" \o l2 \o "{" \o r2 \o "}" \o l3 \o "\""
 CasesC13(lazy) ==
   {CaseX(<<Doc13("$\"" \o l1 \o "\"")>>, Env13, "lit", l1) : l1 \in Lits}
+  (* the two-character string $" : its opening and closing quote are the same character; the empty template *)
+  \cup {CaseX(<<Doc13("$\"")>>, Env13, "lit", "")}
+  (* a reference to a document key whose name starts with "$" (written escaped) is a path like any other *)
+  \cup {CaseX(<<Mk3("$$tag", S("v1"), "n", I("5"), "t", S("$\"app-{$$tag}-{n}\""))>>, Env13, "dollarkey", Mk3("$tag", S("v1"), "n", I("5"), "t", S("app-v1-5")))}
   \cup {CaseX(<<Doc13(Tmpl1(l1, r, l2))>>, Env13, "one", <<l1, r, l2>>) : l1 \in Lits, r \in Refs13, l2 \in Lits}
   \cup {CaseX(<<Doc13(Tmpl2(l1, r1, ":", r2, l1))>>, Env13, "two", <<l1, r1, r2>>) : l1 \in {"", "a}"}, r1 \in Refs13, r2 \in Refs13}
   \cup (IF Bound >= 2
@@ -541,6 +561,7 @@ LawC13(cs) ==
          IF At(cs.docs[1], "t") = S("$env:UNSET") THEN ~r.ok
          ELSE r.ok /\ IsStr(At(r.v[1], "t")) /\ Has(r.v[1], "val") /\ ~Has(r.v[1], "$env:V")
     [] cs.tag = "nested" -> r = Ok(<<Mk3("a", S("<5>"), "b", S("<5>"), "n", I("5"))>>)
+    [] cs.tag = "dollarkey" -> r = Ok(<<cs.aux>>)
     [] cs.tag = "indirect" ->
          LET k == cs.aux[1]  v == cs.aux[2] IN
          IF v = "UNSET" THEN ~r.ok
